@@ -19,7 +19,7 @@
     all three as FUNCTIONS of the observable of the staged graph ([derive]), the
     extended observable [xobs], its boolean equality, the monitor [C11_ok] (the
     expansions obtained in several processes are all equal) and the relocation
-    vocabulary ([set_root], [base], [txt_reloc] is in OrderFree3.v). *)
+    vocabulary ([set_root], [base], [txt_reloc], [mask_result]). *)
 From MWF Require Export Base.Str Base.Util Expand.PyStr Expand.Expand.
 From Coq Require Import List NArith Bool Arith Permutation.
 Import ListNotations.
@@ -145,6 +145,15 @@ Definition set_root (r : str) (sp : spec) : spec :=
 
 (** the directory [root/c1/.../cn] ([msp] of Expand.v is [base root (map san comps)]) *)
 Definition base (root : str) (comps : list str) : str := fold_left pjoin comps root.
+
+(** two texts obtained from the same text by the same sequence of
+    [str.replace] calls, the replacement being a directory below [r] on one
+    side and THE SAME directory below [r'] on the other: "they differ only by
+    the root prefix of the substituted workspaces" *)
+Inductive txt_reloc (r r' : str) : str -> str -> Prop :=
+| tr_same : forall x, txt_reloc r r' x x
+| tr_sub : forall v comps a b, txt_reloc r r' a b ->
+    txt_reloc r r' (replace v (base r comps) a) (replace v (base r' comps) b).
 
 (** the observable with the two fields that can mention the root blanked *)
 Definition mask_nobs (o : nobs) : nobs :=
